@@ -25,6 +25,10 @@ def field_row(field):
     mark = "X" if field["empty"] else ""
     kind = field["t"]
     if kind == "Integer":
+        lo, hi = number(field["lo"]), number(field["hi"])
+        if field.get("parts") and field.get("open", "none") == "none" and lo < 0 <= hi:
+            # the same range written in two parts, the upper one first: the column has to hold the limits of the whole rule
+            return ["F", field["name"], "", mark, "", "Integer", "0...%d, %d...-1" % (hi, lo)]
         rule = {"none": "%d...%d" % (number(field["lo"]), number(field["hi"])), "lo": "...%d" % number(field["hi"]),
                 "hi": "%d..." % number(field["lo"])}[field.get("open", "none")]
         return ["F", field["name"], "", mark, "", "Integer", rule]
@@ -95,6 +99,13 @@ def _job(vec):
         signature = signature or found
         if more:
             break
+    if not problems and any(f["t"] == "Integer" and f.get("open", "none") == "none" and number(f["lo"]) < 0 <= number(f["hi"])
+                            for f in vec["fields"]):
+        in_parts = dict(vec)
+        in_parts["fields"] = [dict(field, parts=True) for field in vec["fields"]]
+        more, found = _job_spelled(in_parts)
+        problems.extend("rule in two parts: %s" % problem for problem in more)
+        signature = signature or found
     return problems, signature
 
 
